@@ -115,6 +115,26 @@ pub fn artifact_to_replay_cli(a: &[String]) -> i32 {
 
 // ---- thorough tier: bounded fuzzer run ---------------------------------------------------------
 
+static SUMMARY: std::sync::Mutex<Option<serde_json::Value>> = std::sync::Mutex::new(None);
+
+/// `Check::prepare` of the thorough tier: run the fuzzer, remember the summary for the evidence.
+pub fn prepare_thorough(plan: &FuzzPlan, args: &Args) -> Result<(), String> {
+    if args.tier != Tier::Thorough || args.replay.is_some() || args.cases_override.is_some() && std::env::var("VERIF_FORCE_FUZZ").is_err() {
+        return Ok(());
+    }
+    let v = run_fuzzer(plan, args)?;
+    *SUMMARY.lock().unwrap() = Some(v);
+    Ok(())
+}
+
+pub fn coverage() -> serde_json::Map<String, serde_json::Value> {
+    let mut m = serde_json::Map::new();
+    if let Some(v) = SUMMARY.lock().unwrap().clone() {
+        m.insert("libfuzzer".into(), v);
+    }
+    m
+}
+
 pub struct FuzzPlan {
     pub id: &'static str,
     pub target: &'static str,
@@ -124,7 +144,7 @@ pub struct FuzzPlan {
 }
 
 fn fuzz_root() -> PathBuf {
-    std::env::var("VERIF_FUZZ_DIR").map(PathBuf::from).unwrap_or_else(|_| PathBuf::from("/verif/fuzz"))
+    std::env::var("VERIF_FUZZ_DIR").map(PathBuf::from).unwrap_or_else(|_| PathBuf::from("/verif/fuzz/fuzz"))
 }
 
 fn copy_dir(from: &Path, to: &Path) -> usize {
@@ -163,7 +183,7 @@ pub fn run_fuzzer(plan: &FuzzPlan, args: &Args) -> Result<serde_json::Value, Str
     // build
     let build = std::process::Command::new("cargo")
         .args(["+nightly", "fuzz", "build", "-s", "none", "-a", plan.target])
-        .current_dir(&root)
+        .current_dir(root.parent().unwrap_or(&root))
         .env("CARGO_NET_OFFLINE", "true")
         .env_remove("RUSTFLAGS")
         .output()
